@@ -256,9 +256,9 @@ func libSortSlice(x *Exec, n *ast.CallExpr, recv *Val, recvExpr ast.Expr, st *St
 		tmp := st.clone()
 		tmp.vars[iObj] = Val{T: a, Ty: tInt}
 		tmp.vars[jObj] = Val{T: b, Ty: tInt}
-		x.inContract++
+		x.c.inContract++
 		v := x.eval(ret.Results[0], tmp, env)
-		x.inContract--
+		x.c.inContract--
 		return x.defaultType(v).T
 	}
 	a := c.freshName("a")
